@@ -80,6 +80,7 @@ func e2eH1(full bool) {
 		e2eBackend.status = []int{200, 404}[vRange("backend.status", 0, 1)]
 	}
 	e2eBackend.respBody = vBytes("backend.body", 2)
+	e2eBackend.trailer = full && vBool("backend.trailer")
 
 	c := newE2EConn()
 	c.feed(rec, wire)
@@ -141,7 +142,19 @@ func e2eH1(full bool) {
 		wantStatus := map[int]string{200: "HTTP/1.1 200 OK\r\n", 404: "HTTP/1.1 404 Not Found\r\n"}[e2eBackend.status]
 		vAssert(strings.HasPrefix(head, wantStatus), "status-intact")
 		vAssert(strings.Contains(head, "\r\nX-Backend: b1") && strings.Contains(head, "\r\nSet-Cookie: a=1") && strings.Contains(head, "\r\nSet-Cookie: b=2"), "response-header-lines-intact")
-		vAssert(len(out) == 2 && vAnd(out[0] == e2eBackend.respBody[0], out[1] == e2eBackend.respBody[1]), "response-body-intact")
+		if e2eBackend.trailer {
+			vReach("backend-trailer")
+			// chunked: "2\r\n" b0 b1 "\r\n0\r\nX-Checksum: c0ffee\r\n\r\n"
+			tail := "\r\n0\r\nX-Checksum: c0ffee\r\n\r\n"
+			vAssert(strings.Contains(head, "\r\nTransfer-Encoding: chunked") && strings.Contains(head, "\r\nTrailer: X-Checksum"), "trailer-announced")
+			ok := len(out) == 3+2+len(tail) && string(out[:3]) == "2\r\n" && string(out[5:]) == tail
+			vAssert(ok, "response-trailer-intact")
+			if ok {
+				vAssert(vAnd(out[3] == e2eBackend.respBody[0], out[4] == e2eBackend.respBody[1]), "response-body-intact")
+			}
+		} else {
+			vAssert(len(out) == 2 && vAnd(out[0] == e2eBackend.respBody[0], out[1] == e2eBackend.respBody[1]), "response-body-intact")
+		}
 	}
 	// ---- C11: the connection is idle now; net/http arms the read deadline with the idle timeout
 	want, _ := time.ParseDuration(idle)
